@@ -474,8 +474,14 @@ Eval vm_compute in summary.
 
 
 def cp_cells(kernel, dg):
+    """CP lines and cells as the SECOND consumer sees them: the CLI calls get_critical_path() once for the text
+    report and again for the machine-readable output (and export_graph calls it too)."""
     cp = dg.get_critical_path()
-    return [(int(x.line_number), float(x.latency_cp)) for x in cp]
+    first = [(int(x.line_number), float(x.latency_cp)) for x in cp]
+    cp = dg.get_critical_path()
+    second = [(int(x.line_number), float(x.latency_cp)) for x in cp]
+    cp_cells.last_first = first
+    return second
 
 
 def lcd_entries(dg):
@@ -509,4 +515,5 @@ def build_case(pipe, text, flagdeps, with_lcd=True, with_cp=True, reduce=False):
         case["lcd"] = lcd_entries(dg)
     if with_cp:
         case["cp"] = cp_cells(kernel, dg)
+        case["cp_first_call"] = cp_cells.last_first
     return case, kernel, dg
